@@ -122,9 +122,19 @@ def copyTo (m : AMap) (src : Int) (targets : List Int) : AMap :=
   | none => m
   | some _ => copyToLoop m src targets
 
+/-- the same function, with its eleven values computed once (keeps the executable model from re-evaluating chains of
+    closures); `normK f = f` -/
+def normK {α : Type} (f : Kind → α) : Kind → α :=
+  let a0 := f .solution; let a1 := f .pp; let a2 := f .exchange; let a3 := f .surface; let a4 := f .ss
+  let a5 := f .gas; let a6 := f .kinetics; let a7 := f .mix; let a8 := f .reaction; let a9 := f .temperature
+  let a10 := f .pressure
+  fun k => match k with
+    | .solution => a0 | .pp => a1 | .exchange => a2 | .surface => a3 | .ss => a4 | .gas => a5 | .kinetics => a6
+    | .mix => a7 | .reaction => a8 | .temperature => a9 | .pressure => a10
+
 abbrev Maps := Kind → AMap
 
-def Maps.set (ms : Maps) (k : Kind) (m : AMap) : Maps := fun k' => if k' = k then m else ms k'
+def Maps.set (ms : Maps) (k : Kind) (m : AMap) : Maps := normK fun k' => if k' = k then m else ms k'
 
 /-- every way in which the keyword drivers change a map -/
 inductive SOp where
@@ -257,11 +267,11 @@ def St.find (s : St) (k : Kind) (n : Int) : Option Entry := (s.maps k).find n
 def St.fresh (s : St) (p : String) : St × Nat :=
   ({ s with next := s.next + 1, prov := (s.next, p) :: s.prov }, s.next)
 
-def St.setUse (s : St) (k : Kind) (u : UseSlot) : St := { s with use := fun k' => if k' = k then u else s.use k' }
-def St.setSave (s : St) (k : Kind) (v : SaveSlot) : St := { s with save := fun k' => if k' = k then v else s.save k' }
+def St.setUse (s : St) (k : Kind) (u : UseSlot) : St := { s with use := normK fun k' => if k' = k then u else s.use k' }
+def St.setSave (s : St) (k : Kind) (v : SaveSlot) : St := { s with save := normK fun k' => if k' = k then v else s.save k' }
 def St.addNew (s : St) (k : Kind) (n : Int) : St :=
-  { s with newSet := fun k' => if k' = k then setIns n (s.newSet k') else s.newSet k' }
-def St.setDel (s : St) (k : Kind) (b : BinItem) : St := { s with del := fun k' => if k' = k then b else s.del k' }
+  { s with newSet := normK fun k' => if k' = k then setIns n (s.newSet k') else s.newSet k' }
+def St.setDel (s : St) (k : Kind) (b : BinItem) : St := { s with del := normK fun k' => if k' = k then b else s.del k' }
 def St.stop (s : St) (msg : String) : St := if s.stopped.isSome then s else { s with stopped := some msg }
 
 def Kind.name : Kind → String
@@ -311,7 +321,7 @@ def readUse (s : St) (k : Kind) : Option Int → St
   | some n => s.setUse k ⟨decide (0 ≤ n), n⟩
   | none => s.setUse k ⟨false, -2⟩
 
-def allBins (f : BinItem → BinItem) (s : St) : St := { s with del := fun k => f (s.del k) }
+def allBins (f : BinItem → BinItem) (s : St) : St := { s with del := normK fun k => f (s.del k) }
 
 def readDelete (s : St) (lines : List DelLine) : St :=
   let (s, cell) := lines.foldl (fun (acc : St × BinItem) l =>
@@ -336,12 +346,12 @@ def readBlock (s : St) : Block → St
   | .use k n => readUse s k n
   | .save k n m => s.setSave k ⟨true, n, m⟩
   | .copy (some k) src a b =>
-    { s with copies := fun k' => if k' = k then s.copies k' ++ [(src, a, b)] else s.copies k', seenCopy := true }
-  | .copy none src a b => { s with copies := fun k' => s.copies k' ++ [(src, a, b)], seenCopy := true }
+    { s with copies := normK fun k' => if k' = k then s.copies k' ++ [(src, a, b)] else s.copies k', seenCopy := true }
+  | .copy none src a b => { s with copies := normK fun k' => s.copies k' ++ [(src, a, b)], seenCopy := true }
   | .delete lines => readDelete s lines
   | .runCells toks => { s with cells := some (toks.foldl BinItem.augTok ⟨true, []⟩).nums }
   | .entityMix k n m comps =>
-    { s with mixes := fun k' => if k' = k then insMix (n, max m n, comps) (s.mixes k') else s.mixes k' }
+    { s with mixes := normK fun k' => if k' = k then insMix (n, max m n, comps) (s.mixes k') else s.mixes k' }
 
 /-- `read_input`: per-simulation resets, then the blocks in text order -/
 def readInput (s : St) (blocks : List Block) : St :=
